@@ -291,11 +291,27 @@ def firstLe (u : α) : List α → Nat → Option Nat
   | [], _ => none
   | p :: ps, i => if u < p then some i else firstLe u ps (i + 1)
 
-/-- `Exponential.randomise`: index into `candidates`; `close` = `np.isclose(rand, probabilities[-1])` -/
+/-- first index whose entry equals `x` (`np.argmax(probabilities == x)`) -/
+def firstEq (x : α) : List α → Nat → Option Nat
+  | [], _ => none
+  | p :: ps, i => if feq p x then some i else firstEq x ps (i + 1)
+
+/-- `Exponential.randomise`: index into `candidates`; `close` = `np.isclose(rand, probabilities[-1])`.
+The fallback for a uniform above the (rounded) final cumulative probability is the FIRST index at which the cumulative
+sum reaches its final value — the last candidate of non-zero probability
+(`int(np.argmax(probabilities == probabilities[-1]))`; `argmax` of an all-false array is 0). -/
 def expSelect (cum : List α) (u : α) (close : Bool) : Except RErr Nat :=
   match firstLe u cum 0 with
   | some i => .ok i
-  | none => if close && 0 < cum.length then .ok (cum.length - 1) else .error .runtime
+  | none =>
+    if close then
+      match cum.getLast? with
+      | some l =>
+        match firstEq l cum 0 with
+        | some i => .ok i
+        | none => .ok 0
+      | none => .error .runtime
+    else .error .runtime
 
 /-- `ExponentialCategorical.randomise`: running sum of the target probabilities, first target with
 `unif_rv < cum_prob`, otherwise the last target -/
